@@ -308,6 +308,13 @@ pub fn merge_model(mf: MergeKind, vals: &[Vec<u8>]) -> Vec<u8> {
         MergeKind::First => vals[0].clone(),
         MergeKind::Last => vals[vals.len() - 1].clone(),
         MergeKind::Join => vals.join(&0x1Fu8),
+        MergeKind::BorrowedPrefix => {
+            if vals.len() == 1 {
+                vals[0].clone()
+            } else {
+                vals[0][..vals[0].len() / 2].to_vec()
+            }
+        }
     }
 }
 
